@@ -1,0 +1,54 @@
+package generator
+
+import (
+	"bytes"
+	"encoding/json"
+	"strings"
+
+	"github.com/aml-org/amf-custom-validator/internal/parser/path"
+)
+
+// regoString renders text taken from the profile (names, messages, list values, path sources) as a Rego string
+// literal, quotes included. Rego string literals follow the JSON syntax, so quotes, backslashes and control
+// characters are escaped and can neither end the literal nor change the surrounding code.
+func regoString(s string) string {
+	var b bytes.Buffer
+	enc := json.NewEncoder(&b)
+	enc.SetEscapeHTML(false)
+	if err := enc.Encode(s); err != nil {
+		return "\"\""
+	}
+	return strings.TrimSuffix(b.String(), "\n")
+}
+
+// regoStringContent is regoString without the surrounding quotes, for text spliced into a larger literal
+func regoStringContent(s string) string {
+	q := regoString(s)
+	return q[1 : len(q)-1]
+}
+
+// regoStringList renders a list of profile values as the elements of a Rego set literal
+func regoStringList(values []string) string {
+	if len(values) == 0 {
+		return "\"\"" // "{ }" would be an empty object, not a set
+	}
+	quoted := make([]string, len(values))
+	for i, v := range values {
+		quoted[i] = regoString(v)
+	}
+	return strings.Join(quoted, ",")
+}
+
+// expectedValuesLiteral renders the list shown as "expected" in traces (["a","b"]) as a Rego string literal
+func expectedValuesLiteral(values []string) string {
+	acc := make([]string, len(values))
+	for i, v := range values {
+		acc[i] = "\"" + v + "\""
+	}
+	return regoString("[" + strings.Join(acc, ",") + "]")
+}
+
+// queryingPathComment is the comment announcing a path query; the path source may span several lines
+func queryingPathComment(p path.PropertyPath) string {
+	return "#  querying path: " + strings.NewReplacer("\n", " ", "\r", " ").Replace(p.Source())
+}
